@@ -216,6 +216,11 @@ class C16(CheckBase):
                                                    "names", "none"]),
                             ch.weighted([(4, None), (1, "text"),
                                          (1, "xml")])])
+                if ch.coin(0.2):
+                    # through a plain chameleon.loader.TemplateLoader
+                    # bound to a template class (loader.bind(cls))
+                    ops[-1].append("bind")
+                    ops[-1][3] = ch.pick(["text", "xml"])
             elif k == "retarget":
                 # assign template.filename: the object must follow the
                 # other file from now on
@@ -396,6 +401,11 @@ class C16(CheckBase):
                 auto_reload=case["auto_reload"],
                 formats={"xml": self.CountingFile,
                          "text": self.CountingText})
+            from chameleon.loader import TemplateLoader as BaseLoader
+            base_loader = BaseLoader(
+                [os.path.join(root, d) for d in case["search_path"]],
+                default_extension=case["default_extension"],
+                auto_reload=case["auto_reload"])
         caller_path = next((p_ for p_, v_ in case["files"].items()
                             if v_.get("callee")), None)
         loaded: dict[str, Obj] = {}           # spec -> model object
@@ -788,10 +798,17 @@ class C16(CheckBase):
                     spec = op[1] if k == "load" else full(op[1])
                     mode = op[2] if k == "load" else "render"
                     fmt = op[3] if k == "load" and len(op) > 3 else None
-                    got = outcome(lambda: loader.load(spec, fmt))
+                    bound = k == "load" and len(op) > 4 and op[4] == "bind"
+                    if bound:
+                        cls_ = self.CountingText if fmt == "text" \
+                            else self.CountingFile
+                        got = outcome(lambda: base_loader.bind(cls_)(spec))
+                    else:
+                        got = outcome(lambda: loader.load(spec, fmt))
                     faulted = sum(world.fired.values()) > fired_before
-                    # (same name, other format = another template)
-                    lkey = (spec, "text" if fmt == "text" else "xml")
+                    # (same name, other format = another template; the
+                    # bound loader is another loader with its own registry)
+                    lkey = (spec, "text" if fmt == "text" else "xml", bound)
                     lo = loaded.get(lkey)
                     if lo is None:
                         path, exc = resolve(spec)
